@@ -22,7 +22,8 @@ CONSTANTS
   Kinds,        \* operation kinds: subset of {"text","tree","walk"}
   LastBy,       \* "index" (as built) | "identity" (repaired)
   ResetIdx,     \* TRUE: every operation resets the package counter (as built)
-  Interleave,   \* TRUE: any interleaving of build calls and operations (C13); FALSE: build, then one operation (C03)
+  Interleave,   \* TRUE: any interleaving of build calls and operations (C13); FALSE: build, then operations (C03)
+  OpsAtEnd,     \* Interleave = FALSE: how many operations may follow the build phase
   BadArgs       \* TRUE: operations are also tried on nil and on non-root nodes
 
 VARIABLES store, idx, hist, res, exp
@@ -33,6 +34,7 @@ None == [k |-> "none", err |-> "", rows |-> <<>>, forest |-> <<>>, walk |-> <<>>
 Call(op, name, p, kind) == [op |-> op, name |-> name, p |-> p, kind |-> kind]
 
 OpDone == \E i \in 1..Len(hist) : hist[i].op = "Op"
+NOps == Cardinality({i \in 1..Len(hist) : hist[i].op = "Op"})
 
 Init == store = <<>> /\ idx = 0 /\ hist = <<>> /\ res = None /\ exp = None
 
@@ -65,6 +67,7 @@ CodeResult(kind, r) ==
   CASE kind = "text" -> [None EXCEPT !.k = "text", !.rows = CodeRowsOfRoot(store, r, LastBy)]
     [] kind = "tree" -> [None EXCEPT !.k = "tree", !.forest = <<TreeOf(store, r)>>]
     [] kind = "walk" -> [None EXCEPT !.k = "walk", !.walk = CodeWalk(store, <<r>>, LastBy)]
+    [] kind = "verify" -> [None EXCEPT !.k = "verr"]      \* verify against a directory that does not exist: an error, no state
 
 \* the declarative result: a function of the tree's shape and names alone
 RuleResult(kind, r) ==
@@ -72,10 +75,11 @@ RuleResult(kind, r) ==
   CASE kind = "text" -> [None EXCEPT !.k = "text", !.rows = RootRows(t)]
     [] kind = "tree" -> [None EXCEPT !.k = "tree", !.forest = <<t>>]
     [] kind = "walk" -> [None EXCEPT !.k = "walk", !.walk = RootWalk(t)]
+    [] kind = "verify" -> [None EXCEPT !.k = "verr"]
 
 \* validateTreeRoot, then idxCounter.reset(), then the operation
 Op(kind, n) ==
-  /\ (IF Interleave THEN TRUE ELSE ~OpDone)
+  /\ (IF Interleave THEN TRUE ELSE NOps < OpsAtEnd)
   /\ hist' = Append(hist, Call("Op", <<>>, n, kind))
   /\ UNCHANGED store
   /\ IF n = 0 THEN
@@ -115,6 +119,7 @@ MarkdownEquivalent ==
        /\ CASE res.k = "text" -> exp.rows = CodeRows(gs.nodes, gs.roots, "identity")
             [] res.k = "tree" -> exp.forest = ForestOf(gs.nodes, gs.roots)
             [] res.k = "walk" -> exp.walk = CodeWalk(gs.nodes, gs.roots, "identity")
+            [] OTHER -> TRUE
 
 \* Add never creates a second child with the same name
 NoDuplicateSiblings ==
